@@ -75,6 +75,16 @@ Params == {<<-1, 1>>, <<0, 1>>, <<2, 1>>, <<1, 2>>, <<1, 0>>}        \* includes
 LinePairs(d) == IF d = 2 THEN {<< <<1,0,1>>, <<0,1,1>> >>, << <<0,0,1>>, <<1,1,0>> >>, << <<1,1,1>>, <<1,-1,0>> >>}
                 ELSE {<< <<1,0,1,1>>, <<0,1,1,1>> >>, << <<0,0,0,1>>, <<1,0,1,0>> >>, << <<1,1,0,1>>, <<0,1,-1,1>> >>}
 
+\* polytopes (homogeneous integer vertices, in order)
+Polytopes2 == { Obj("segment", << <<0,0,1>>, <<2,1,1>> >>), Obj("segment", << <<1,1,1>>, <<1,0,0>> >>),
+                Obj("polygon", << <<0,0,1>>, <<2,0,1>>, <<0,2,1>> >>),
+                Obj("polygon", << <<0,0,1>>, <<3,0,1>>, <<3,3,1>>, <<1,1,1>>, <<0,3,1>> >>) }
+Polytopes3 == { Obj("segment", << <<0,0,0,1>>, <<1,2,2,1>> >>),
+                Obj("polygon", << <<0,0,0,1>>, <<2,0,0,1>>, <<0,2,1,1>> >>),
+                Obj("polygon", << <<0,0,1,1>>, <<2,0,1,1>>, <<2,2,3,1>>, <<0,2,3,1>> >>),
+                Obj("polyhedron", << << <<0,0,0,1>>, <<1,0,0,1>>, <<0,1,0,1>> >>, << <<0,0,0,1>>, <<1,0,0,1>>, <<0,0,1,1>> >>,
+                                     << <<0,0,0,1>>, <<0,1,0,1>>, <<0,0,1,1>> >>, << <<1,0,0,1>>, <<0,1,0,1>>, <<0,0,1,1>> >> >>) }
+
 \* ---------------------------------------------------------------------------
 Init == pc = "start" /\ task \in Tasks /\ cfgn = <<>> /\ res = [t |-> "none"]
 
@@ -88,6 +98,7 @@ Choose ==
      \/ /\ task = "quad2" /\ \E i \in DOMAIN Pool2, Q \in Quadrics2 : cfgn' = <<i, Q>>
      \/ /\ task = "quad3" /\ \E i \in DOMAIN Pool3, Q \in Quadrics3 : cfgn' = <<i, Q>>
      \/ /\ task = "cr" /\ \E d \in {2, 3}, i \in DOMAIN Pool2 : cfgn' = <<d, i>>
+     \/ /\ task = "poly" /\ \E d \in {2, 3} : cfgn' = <<d>>
 
 Compute ==
   /\ pc = "chosen" /\ pc' = "done" /\ UNCHANGED <<task, cfgn>>
@@ -123,6 +134,10 @@ Compute ==
              /\ Cardinality({x1, x2, x3, x4}) = 4
              /\ res' = [t |-> "cr", d |-> d, pts |-> <<PtAt(a, b, x1), PtAt(a, b, x2), PtAt(a, b, x3), PtAt(a, b, x4)>>,
                         M |-> M, cr |-> CRParams(x1, x2, x3, x4)]
+     \/ /\ task = "poly"        \* a transformed polytope has the images of the original vertices, in order
+        /\ LET d == cfgn[1] IN
+           \E i \in DOMAIN PoolOf(d), x \in (IF d = 2 THEN Polytopes2 ELSE Polytopes3) :
+             res' = [t |-> "poly", d |-> d, x |-> x, M |-> PoolOf(d)[i], img |-> CanonAny(ActAny(PoolOf(d)[i], x))]
 
 Next == Choose \/ Compute
 Spec == Init /\ [][Next]_vars
@@ -153,8 +168,13 @@ CRInvariant == (Done /\ res.t = "cr") =>
        B(i, j) == LET k == m(i, j) IN q[i][k[1]] * q[j][k[2]] - q[i][k[2]] * q[j][k[1]]
    IN B(1, 3) * B(2, 4) * res.cr[2] = B(1, 4) * B(2, 3) * res.cr[1]
 
+\* vertex i of the image is the image of vertex i (the definition, vertex by vertex)
+VerticesInOrder == (Done /\ res.t = "poly" /\ res.x.k \in {"segment", "polygon"}) =>
+   \A i \in DOMAIN res.x.v : SameClass(res.img.v[i], ActPoint(res.M, res.x.v[i]))
+
 Stratum ==
-  CASE res.t = "jm" -> (IF res.e # "none" THEN res.e ELSE "jm/" \o res.f)
+  CASE res.t = "poly" -> ("polytope/" \o res.x.k \o (IF Det(res.M) < 0 THEN "/orientation-reversing" ELSE "/orientation-preserving"))
+    [] res.t = "jm" -> (IF res.e # "none" THEN res.e ELSE "jm/" \o res.f)
     [] res.t = "inc" -> (IF res.b THEN "incident" ELSE "not-incident")
     [] res.t = "qp" -> (IF res.b THEN "on-quadric" ELSE "off-quadric")
     [] res.t = "qh" -> (IF res.b THEN "tangent" ELSE "not-tangent")
